@@ -40,7 +40,7 @@ class C07:
             if not ok:
                 viol.append({'clause': 'result has the documented shape', 'sig': 'C07:shape',
                              'detail': {'source': src, 'config': cfg, 'result': repr(r)[:300]}})
-        nt = o.kind == 'ok' and (bool(o.stderr) or case[0] in ('fault', 'fault2', 'tail', 'tail2', 'kv'))
+        nt = o.kind == 'ok' and (bool(o.stderr) or case[0] in ('fault', 'fault2', 'tail', 'tail2', 'kv', 'body'))
         return {'viol': viol, 'out': [cfg, o.kind, repr(o.result)], 'nt': nt, 'tr': 1, 'hang': o.kind == 'hang'}
 
 
